@@ -46,7 +46,7 @@ def cases(ctx):
     # decode under masking configurations: the processor on each variable text element of the packaged configuration in turn
     base = msgwork.cfg_of('packaged')
     var_text = [b for b in gen.data_bits(base) if base[str(b)]['field_type'] != 'FIXED'
-                and not base[str(b)].get('field_processor') and not base[str(b)].get('field_python_type')]
+                and not base[str(b)].get('field_processor') and gen.is_text(base[str(b)])]
     per = 6 if ctx.tier == 'quick' else 60
     for b in var_text:
         for proc in ('PAN', 'PAN-PREFIX'):
@@ -134,6 +134,9 @@ def judge_decode(ctx, case):
     if case['cfg'] == 'packaged':
         cfg = copy.deepcopy(cfg)
         cfg[str(b)]['field_processor'] = proc
+        if case['salt'] % 2:
+            cfg[str(b)]['field_python_type'] = 'string'    # the documented example configuration spells the default out
+            ctx.count('masked elements that also spell out field_python_type string')
     w = ref.PREFIX[cfg[str(b)]['field_type']]
     n = rng.choice([11, 12, 13, 16, 16, 19, rng.randint(11, min(40, 10 ** w - 1))])
     pan = ''.join(rng.choice('0123456789') for _ in range(n))
@@ -141,7 +144,7 @@ def judge_decode(ctx, case):
     # other elements: letters only (cannot coincide with the PAN's digits)
     for ob in rng.sample(gen.data_bits(cfg), min(5, len(gen.data_bits(cfg)))):
         oc = cfg[str(ob)]
-        if ob == b or oc.get('field_python_type') or oc.get('field_processor') in ('PAN', 'PAN-PREFIX', 'ICC'):
+        if ob == b or not gen.is_text(oc) or oc.get('field_processor') in ('PAN', 'PAN-PREFIX', 'ICC'):
             continue
         if oc.get('field_processor') == 'PDS':
             val = letters(rng, rng.randint(1, 30))
